@@ -495,6 +495,17 @@ def observe(ctx, d, m, cls, kind, cid, case, climate, snap=None, prev=None):
                 ctx.violation(sig("anomaly_selected_months",
                                   "ne-anomaly-rows-of-selected-months"),
                               {**case, "months": months}, cid)
+    # the windowed observable read once more, after everything derived from
+    # it has been computed: the derived quantities are read-only queries
+    ok, obs2 = ctx.call(d.observable)
+    ctx.evals()
+    ctx.count("observable_read_again_after_queries")
+    if good and (not ok or np.shape(obs2) != view.shape
+                 or not np.array_equal(np.asarray(obs2), view)):
+        ctx.violation(sig("observable", "changed-by-read-only-queries"),
+                      {**case, "lib": obs2 if ok else repr(obs2),
+                       "want": view}, cid)
+        good = False
     s["pm_shape"] = np.shape(pm) if okm else None
     if okm and oka and pm_ok and an_ok:
         s["pm"] = np.asarray(pm).tobytes()
@@ -534,7 +545,16 @@ def run_history(ctx, Data, ClimateData, GeoGrid, cid, r, climate):
     case = {"class": cls, "T": T, "N": N, "time": time, "lat": lat,
             "lon": lon, "anomalies": flag,
             "cycle": cycle if climate else None, "history": []}
-    grid = GeoGrid(time, lat, lon, silence_level=3)
+    # whole-numbered axes in the integer type a caller may hold them in
+    # (np.arange(T), hours since ...): the values are what counts
+    def as_given(a):
+        if np.all(a == np.round(a)) and np.abs(a).max() < 2 ** 15 and \
+                r.random() < 0.5:
+            ctx.count("integer_typed_axes")
+            return a.astype(str(r.choice(["i8", "i4", "i2"])))
+        return a
+    grid = GeoGrid(as_given(time), as_given(lat), as_given(lon),
+                   silence_level=3)
     # optional constructor window
     ctor_w = None
     if r.random() < 0.2:
